@@ -404,9 +404,13 @@ def _coverage(ctx):
     ssrc = ast.unparse(start.node)
     fsrc = ast.unparse(fin.functions['_cleanup_exception_rules'].node) \
         if '_cleanup_exception_rules' in fin.functions else ''
+    plug = fin.functions.get('_cleanup_exception_rules')
+    plug_calls = [c for c in K.calls(plug.node)
+                  if K.is_meth(c, 'cleanup_exception_rules')] \
+        if plug is not None else []
     ctx.ob('C16.1', start, None,
            ('apply_exception_rules' not in ssrc) or
-           ('cleanup_exception_rules' in fsrc and
+           ('cleanup_exception_rules' in fsrc and bool(plug_calls) and
             '_cleanup_exception_rules(' in ast.unparse(stop.node)),
            'firewall plugin exception rules applied at start are cleaned '
            'up at finish', construct='plugin exception rules')
@@ -780,6 +784,15 @@ def check(ctx):
     _entry_conditions(ctx, run, fin)
     _owner(ctx, start, stop, created, removed)
     _repeatable(ctx, stop, fin)
+    # a finish that is repeated finds some resources already released: the
+    # steps around the network clean-up tolerate exactly "already gone" and
+    # raise every other failure (a swallowed failure ends the finish as a
+    # success and it is never run again)
+    judged = 0
+    for func in fin.live_functions():
+        judged += K.tolerance_polarity(ctx, 'C16.3', func)
+    ctx.require(judged >= 2, 'errno tests of the finish steps (found %d)' %
+                judged, rule='C16.3')
     _ports(ctx)
 
 
